@@ -475,8 +475,13 @@ def run_engine_b(spec, o):
             # list); what a *tuner* can do with such a resume is C13's business. The run ends here.
             o.count("B:failed_trial_promoted_for_lack_of_valid_entries")
         else:
+            if dehb and vt.raised[1] == "AssertionError" and "parent pool" in str(vt.raised[2]):
+                # DEHB's mutation step needs 3 evaluated trials (its own TODO); the key names that assertion only
+                mech = f"dehb:{vt.raised[0]}:AssertionError:parent_pool_too_small"
+            else:
+                mech = f"{fam}:{vt.raised[0]}:{vt.raised[1]}:{ctx}{mon.sfx}"
             o.violate("no_raise" if vt.raised[1] != "StepBudgetExceeded" else "never_blocks",
-                      f"{fam}:{vt.raised[0]}:{vt.raised[1]}:{ctx}{mon.sfx}", {"raised": vt.raised, "kind": p["kind"], "systems": systems})
+                      mech, {"raised": vt.raised, "kind": p["kind"], "systems": systems, "n_workers": p["n_workers"]})
     for ev in vt.events[-50:]:
         o.ev(*ev)
     st = val.stats
